@@ -492,9 +492,19 @@ impl CoreInner {
 		// Schedule async WAL cleanup
 		let wal_dir = self.wal.read().get_dir_path().to_path_buf();
 		let min_wal_to_keep = entry.wal_number + 1;
+		let manifest = Arc::clone(&self.level_manifest);
 
 		tokio::spawn(async move {
 			verif_yield!("flush.wal_cleanup_start");
+			// This task may run late. If the store was restored from a checkpoint in
+			// the meantime, the log numbers of the discarded timeline mean nothing
+			// for the files now in the directory: never delete a segment the current
+			// manifest still needs (it would be the live segment of the restored
+			// store, and every commit in it would be lost at the next crash).
+			let min_wal_to_keep = match manifest.read() {
+				Ok(m) => min_wal_to_keep.min(m.get_log_number()),
+				Err(_) => return,
+			};
 			match cleanup_old_segments(&wal_dir, min_wal_to_keep) {
 				Ok(count) if count > 0 => {
 					log::info!(
